@@ -313,7 +313,7 @@ def modelLine (st : St) (ws : List String) : St × String :=
         | "stats" =>
           let sz := t.size
           (st, s!"size={sz} empty={showB (sz == 0)} hp={t.hp} buckets={2 ^ t.hp} cap={t.capacity c} lf={(lfOf sz (t.capacity c)).toBits.toNat} mlf={t.mlf.toBits.toNat} mhp={t.mhp}")
-        | "lock" => (putTab st id { t := t.lockTable c, locked := true }, "ok")
+        | "lock" => (putTab st id { e with t := t.lockTable c, locked := true }, "ok")
         | "unlock" => (putTab st id { e with locked := false }, "ok")
         | "iter" => (st, iterFwd c t)
         | "riter" => (st, iterBwd c t)
